@@ -41,4 +41,54 @@ CHECKS = {
             rapid("large", "TestLarge", 480, 6000, qs=8, ts=16, qt=400, tt=3000),
         ],
     },
+    "C01": {
+        "title": "Diff then apply reproduces the new build exactly",
+        "level": "exploration",
+        "technique": "rapid property-based testing: generated build pairs x compression settings, round-trip oracle with an independent tree comparer",
+        "level_text": ("Build pairs are generated from a tiny path alphabet with shared high-entropy streams, block-boundary size classes, "
+                       "rename/duplicate/swap/chain/prefix/concat/kind-change operations and rare >4MiB files; every registered "
+                       "compressor and quality is drawn. The verdict is the independent comparison of the freshly applied tree with "
+                       "the new build. Sampling, with shrinking; no claim beyond the explored cases."),
+        "level_note": "trusted: the harness' own tree writer/reader (os + filepath), the patch decoder used only for class tags.",
+        "rule": ("rapid draws (old tree, derivation ops -> new tree, compression). Oracle: WritePatch nil; fresh apply nil; applied tree == new "
+                 "tree (paths, kinds, bytes, symlink destinations, no extras). Non-trivial: the decoded patch has >=1 BLOCK_RANGE and >=1 "
+                 "non-empty DATA op outside whole-file series, or a whole-file series whose old path differs. Distinct: SHA-1 of the spec."),
+        "assumptions": ["gzip levels outside -2..9 are rejected by the compressor itself and counted as skipped",
+                        "file modes are not varied (0644/0755 only)"],
+        "required_classes": {"quick": ["op:blockrange", "op:data", "op:wholefile-renamed", "comp:gzip", "comp:brotli", "size:=k*64Ki"],
+                             "thorough": ["op:blockrange", "op:data", "op:wholefile-renamed", "comp:gzip", "comp:brotli", "size:=k*64Ki",
+                                          "size:>4MiB", "rel:aligned-prefix-of-larger-old", "old:two-files-share-a-block", "op:data-run>=4MiB"]},
+        "stages": [rapid("roundtrip", "TestProp", 1600, 64000, qs=8, ts=16, qt=600, tt=5400)],
+    },
+    "C02": {
+        "title": "In-place apply equals fresh apply and leaves the old build intact until commit",
+        "level": "exploration",
+        "technique": "rapid property-based testing: generated build pairs with path-level relations, pre-commit strong snapshot + post-commit tree comparison, repeated commits",
+        "level_text": ("Generated build pairs with rename/swap/chain/duplicate/patched-source relations up-weighted; plain and optimized "
+                       "patches. Each case is applied in place 3 times from pristine copies (sampling Go's map iteration orders in the "
+                       "commit phase). Oracles: strong snapshot (content, kind, inode, mtime, size, mode) right before Commit equals the "
+                       "snapshot before patching; tree after Commit equals the new build with no survivors."),
+        "level_note": "map iteration orders are sampled by repetition, not enumerated; the stage folder is a sibling of the build directory as in wharf's tests.",
+        "rule": ("rapid draws (old tree, derivation ops -> new tree, compression, optimize?). Non-trivial: the decoded patch has >=1 "
+                 "whole-file series to a different path AND (>=1 overlay file or >=1 ghost). Distinct: SHA-1 of the spec."),
+        "assumptions": ["names ending in .butler-rename-N are never generated (implicit precondition of the commit phase)"],
+        "required_classes": {"quick": ["rel:swap", "rel:chain", "rel:rename-or-dup-without-original", "rel:source-of-rename-also-patched", "commit:overlay", "commit:ghost"],
+                             "thorough": ["rel:swap", "rel:chain", "rel:rename-or-dup-without-original", "rel:source-of-rename-also-patched", "commit:overlay", "commit:ghost", "series:bsdiff"]},
+        "stages": [rapid("inplace", "TestProp", 1200, 40000, qs=8, ts=16, qt=600, tt=5400)],
+    },
+    "C07": {
+        "title": "Optimizing a patch never changes what it produces",
+        "level": "exploration",
+        "technique": "rapid property-based testing: generated build pairs (tiny files up-weighted) x optimizer parameters, round-trip oracle fresh and in place",
+        "level_text": ("Generated build pairs biased to 0..16-byte files and tiny/empty old files; partitions 0..16, concurrency -1..4, "
+                       "ForceMapAll, size limits that exclude files, input and output compression. Oracle: NewContext/Optimize return nil "
+                       "without panic; the optimized patch applied fresh and in place equals the new build."),
+        "level_note": "a panic inside one of bsdiff's goroutines kills the process; the journalled case is then the reproduction.",
+        "rule": ("rapid draws (build pair, compression, optimizer params). Non-trivial: the optimized patch (decoded) contains >=1 BSDIFF "
+                 "series. Distinct: SHA-1 of the spec."),
+        "assumptions": [],
+        "required_classes": {"quick": ["series:bsdiff", "new-file:shorter-than-partitions", "opt:ForceMapAll", "series:bsdiff-against-differently-named-old-file"],
+                             "thorough": ["series:bsdiff", "new-file:shorter-than-partitions", "opt:ForceMapAll", "series:bsdiff-against-differently-named-old-file", "series:excluded-by-size-limit"]},
+        "stages": [rapid("optimize", "TestProp", 1600, 48000, qs=8, ts=16, qt=600, tt=5400)],
+    },
 }
